@@ -179,6 +179,9 @@ def run(ctx: Ctx):
     from .. import nestassign as na
     na.check_second_run(ctx, 200 if not ctx.thorough else 3000, "C08")
     na.check_never_twice(ctx, 100 if not ctx.thorough else 1500, "C08")
+    # the token comparison that decides whether an update is pending (Model/Tokens.v): correspondence and the second-run statement on the written code
+    from .. import tokenscorr
+    tokenscorr.check_part(ctx, 600 if not ctx.thorough else 8000, "C08")
 
 
 def _consistent(c):
@@ -206,6 +209,9 @@ def replay(ctx: Ctx, data):
         from .. import nestassign as na
         return na.replay_case(data["case"])
     c = data["case"]
+    if c.get("kind") == "tokens":
+        from .. import tokenscorr
+        return tokenscorr.replay_case(c["src"])
     if c.get("kind") == "prog":
         o = run_twice({"source": c["source"], "flags": tuple(c["flags"]), "setup": c["setup"]})
         print(o["f1"][-800:], o["f2"][-800:], o["reported2"])
